@@ -7,6 +7,8 @@
 (* marginals.                                                               *)
 EXTENDS BeliefProp, TraceLib
 
+CONSTANT Strict    \* TRUE: every logged message must be the model's message; FALSE: only the schedule rule and the final marginals (C01)
+
 VARIABLES tid, l
 tvars == <<vars, tid, l>>
 
@@ -27,10 +29,10 @@ Ev == Traces[tid].events[l]
 IsEv(n) == /\ l <= Len(Traces[tid].events) /\ Ev.e = n /\ l' = l + 1 /\ UNCHANGED tid
 
 TrSend == /\ IsEv("Send")
-          /\ Ev.exact                                  \* the logged message was integral
           /\ Send(ToSet(Ev.i), ToSet(Ev.j))
-          /\ Flat(msg'[<<ToSet(Ev.i), ToSet(Ev.j)>>], Ev.at, S.sz) = Ev.m
-          /\ divok'
+          /\ Strict => (/\ Ev.exact                  \* the logged message was integral
+                        /\ Flat(msg'[<<ToSet(Ev.i), ToSet(Ev.j)>>], Ev.at, S.sz) = Ev.m
+                        /\ divok')
 
 TrDone == /\ IsEv("Done") /\ Done
           /\ \A k \in 1..Len(Ev.beliefs) :
